@@ -252,6 +252,18 @@ impl MetadataClient for LocalMetadataClient {
             )));
         }
 
+        // A source that is gone was already compacted (or deleted) by someone
+        // else; publishing this target as well would duplicate its rows.
+        if let Some(missing) = source_chunks
+            .iter()
+            .find(|p| !self.chunks.contains_key(p.as_str()))
+        {
+            return Err(crate::Error::Metadata(format!(
+                "Compaction source chunk no longer in catalog: {}",
+                missing
+            )));
+        }
+
         // Determine the new level (max source level + 1)
         let new_level = source_chunks
             .iter()
